@@ -283,6 +283,15 @@ def _oracle(paths, workdir):
     return [j[1] for j in jobs], stats
 
 
+def _clean_replays(prop):
+    """replay artefacts of earlier runs of this family are stale"""
+    d = os.path.join(vlib.VERIF, "replay", prop)
+    if os.path.isdir(d):
+        for f in os.listdir(d):
+            if f.startswith("vfiles-"):
+                os.unlink(os.path.join(d, f))
+
+
 def _nontrivial_c06(lines):
     """an episode is non-trivial if a file was written and loaded back"""
     return any(ln.startswith('{"e":"LoadCmp"') for ln in lines)
@@ -290,6 +299,7 @@ def _nontrivial_c06(lines):
 
 def run_c06(ctx, exe, table, tier, seed):
     issues = []
+    _clean_replays(ctx.prop)
     casefile = os.path.join(ctx.work, "c06-cases.txt")
     total = make_cases(table, tier, seed, casefile)
     tmp = os.path.join(ctx.work, "tmpfiles")
